@@ -946,6 +946,285 @@ def gen_subsolv(tree, out):
     out.append(vdef('gen_inner_test', inner_test_pro, order))
 
 
+# ======================================================================================= MMA.response: variable handling
+# The statements of MMA.response that build the design vector, expand xmin / xmax / move and write the design back to
+# the variable signals  ->  coq/gen/C10/VarsGen.v, proved equal to the typed model of Model/MMAvars.v
+# (expand_bound_t / expand_move_t / writeback) in bridge/C10/VarsBridge.v.  Array-bookkeeping dialect of tools/gen_utils.py,
+# extended by: np.zeros_like / np.ones_like of the design vector, scalar * ones_like, np.asarray(x, dtype=float) /
+# x.astype(float), np.asarray(x).copy(), slice assignment of one entry of a specification.
+import gen_utils
+from gen_utils import ArrEmitter, Val as AVal
+
+
+class RespEmitter(ArrEmitter):
+    """env is keyed by the unparsed source text of names / attributes.  Extra kinds:
+    C  a scalar specification (its dtype tag sdt and value a);  Q  a sequence specification (sdt, l);  E  one entry of it;
+    A  one value"""
+
+    def tr(self, n):
+        key = ast.unparse(n)
+        if key in self.env and not isinstance(n, ast.Name):
+            v = self.env[key]
+            if isinstance(v, str):
+                raise Unsupported(f'{key} is used but its definition is outside the dialect: {v}')
+            return v
+        if isinstance(n, ast.BinOp) and isinstance(n.op, ast.Mult):
+            for a, b in ((n.left, n.right), (n.right, n.left)):
+                if isinstance(b, ast.Call) and ast.unparse(b.func) == 'np.ones_like' and len(b.args) == 1 and not b.keywords:
+                    sc, x = self.want(a, 'C'), self.want(b.args[0], 'T')
+                    return AVal(f'(scal_times_ones_like conv {sc.text} {x.text})', 'T')
+            self.fail(n, 'product')
+        if isinstance(n, ast.Call):
+            f = ast.unparse(n.func)
+            kw = {k.arg: k.value for k in n.keywords}
+            if f == 'np.zeros_like' and len(n.args) == 1 and not kw:
+                return AVal(f'(zeros_like zero {self.want(n.args[0], "T").text})', 'T')
+            if f == 'len' and len(n.args) == 1 and not kw:
+                v = self.tr(n.args[0])
+                if v.kind == 'Q':
+                    return AVal(f'(length (snd {v.text}))', 'N')
+            if f == 'np.asarray' and len(n.args) == 1 and set(kw) == {'dtype'} and gen_utils._is_float_dtype(kw['dtype']):
+                v = self.tr(n.args[0])
+                if v.kind in ('T', 'Q'):
+                    return AVal(f'(as_float conv {v.text})', 'T')
+            if isinstance(n.func, ast.Attribute) and n.func.attr == 'astype' and len(n.args) == 1 and not kw and gen_utils._is_float_dtype(n.args[0]):
+                v = self.tr(n.func.value)
+                if v.kind in ('T', 'Q'):
+                    return AVal(f'(as_float conv {v.text})', 'T')
+            # np.asarray(seq) / np.asarray(seq).copy(): the sequence as an array of its own dtype
+            if f == 'np.asarray' and len(n.args) == 1 and not kw:
+                return self.want(n.args[0], 'Q')
+            if isinstance(n.func, ast.Attribute) and n.func.attr == 'copy' and not n.args and not kw:
+                v = self.tr(n.func.value)
+                if v.kind in ('Q', 'T'):
+                    return v
+        if isinstance(n, ast.Attribute) and n.attr == 'size':
+            v = self.tr(n.value)
+            if v.kind == 'Q':
+                return AVal(f'(length (snd {v.text}))', 'N')
+        if isinstance(n, ast.Subscript) and not isinstance(n.slice, ast.Slice):
+            v = self.tr(n.value)
+            if v.kind == 'Q':
+                return AVal(f'(fst {v.text}) (nth {self.want(n.slice, "N").text} (snd {v.text}) d)', 'E')
+            if v.kind == 'V':
+                return AVal(f'(nth {self.want(n.slice, "N").text} {v.text} d)', 'A')
+        return super().tr(n)
+
+
+def _single_assign(stmts, what):
+    if len(stmts) != 1 or not isinstance(stmts[0], ast.Assign) or len(stmts[0].targets) != 1:
+        raise Unsupported(f'MMA.response: {what}: one assignment expected: ' + '; '.join(ast.unparse(s)[:60] for s in stmts))
+    return stmts[0]
+
+
+def _fill_loop(em, loop, attr, out):
+    """for i in range(<count>): self.<attr>[self.cumlens[i]:self.cumlens[i+1]] = <seq>[i]"""
+    if not (isinstance(loop, ast.For) and not loop.orelse and isinstance(loop.target, ast.Name) and isinstance(loop.iter, ast.Call)
+            and ast.unparse(loop.iter.func) == 'range' and len(loop.iter.args) == 1 and len(loop.body) == 1):
+        raise Unsupported(f'MMA.response: {attr}: per-signal loop')
+    out.append(f'  Definition gen_{attr}_fill_count (b : tarr A) : nat :=\n    {em.want(loop.iter.args[0], "N").text}.\n')
+    st = loop.body[0]
+    t = st.targets[0] if isinstance(st, ast.Assign) and len(st.targets) == 1 else None
+    if not (isinstance(t, ast.Subscript) and ast.unparse(t.value) == f'self.{attr}' and isinstance(t.slice, ast.Slice)
+            and t.slice.lower is not None and t.slice.upper is not None and t.slice.step is None):
+        raise Unsupported(f'MMA.response: {attr}: per-signal assignment: ' + ast.unparse(st)[:100])
+    el = RespEmitter(em.env)
+    el.env[loop.target.id] = AVal('i', 'N')
+    lo, hi, e = el.want(t.slice.lower, 'N'), el.want(t.slice.upper, 'N'), el.want(st.value, 'E')
+    out.append(f'  Definition gen_{attr}_fill_step (cum : list nat) (b : tarr A) (acc : tarr A) (i : nat) : tarr A :=\n'
+               f'    (assign_range_t conv acc {lo.text} {hi.text} {e.text}).\n')
+
+
+def _raise_test(st, what):
+    if not (isinstance(st, ast.If) and len(st.body) == 1 and isinstance(st.body[0], ast.Raise)
+            and isinstance(st.body[0].exc, ast.Call) and ast.unparse(st.body[0].exc.func) == 'RuntimeError'):
+        raise Unsupported(f'MMA.response: {what}: `if <length test>: raise RuntimeError` expected: ' + ast.unparse(st)[:80])
+    return st.test
+
+
+def _len_bad(base_env, test, attr):
+    """len(self.<attr>) != self.n  ->  negb (len =? n)"""
+    if not (isinstance(test, ast.Compare) and len(test.ops) == 1 and isinstance(test.ops[0], ast.NotEq)):
+        raise Unsupported(f'MMA.response: {attr}: length test: ' + ast.unparse(test))
+    e2 = RespEmitter(dict(base_env))
+    e2.env[f'self.{attr}'] = AVal('b', 'Q')
+    return f'(negb ({e2.want(test.left, "N").text} =? {e2.want(test.comparators[0], "N").text}))'
+
+
+def gen_bound_block(stmts, attr, base_env, out):
+    """the three statements that treat self.xmin / self.xmax"""
+    if len(stmts) != 3:
+        raise Unsupported(f'MMA.response: {attr}: expected expansion, length test, conversion')
+    ex, lt, cv = stmts
+    A = f'self.{attr}'
+    if not (isinstance(ex, ast.If) and ast.unparse(ex.test) == f"not hasattr({A}, '__len__')" and len(ex.orelse) == 1 and isinstance(ex.orelse[0], ast.If)):
+        raise Unsupported(f'MMA.response: {attr}: `if not hasattr(.., "__len__"): .. elif ..` expected')
+    # scalar
+    a = _single_assign(ex.body, attr + ' scalar branch')
+    if ast.unparse(a.targets[0]) != A:
+        raise Unsupported(f'MMA.response: {attr}: scalar branch target')
+    em = RespEmitter(dict(base_env))
+    em.env[A] = AVal('sdt a', 'C')
+    out.append(f'  Definition gen_{attr}_scalar (xval : tarr A) (sdt : dtype) (a : A) : tarr A :=\n    {em.want(a.value, "T").text}.\n')
+    # per signal
+    ps = ex.orelse[0]
+    if ps.orelse:
+        raise Unsupported(f'MMA.response: {attr}: unexpected else branch')
+    em = RespEmitter(dict(base_env))
+    em.env[A] = AVal('b', 'Q')
+    if not (isinstance(ps.test, ast.Compare) and len(ps.test.ops) == 1 and isinstance(ps.test.ops[0], ast.Eq)):
+        raise Unsupported(f'MMA.response: {attr}: per-signal test')
+    out.append(f'  Definition gen_{attr}_is_per_signal (nvars : nat) (b : tarr A) : bool :=\n'
+               f'    ({em.want(ps.test.left, "N").text} =? {em.want(ps.test.comparators[0], "N").text}).\n')
+    if len(ps.body) != 3:
+        raise Unsupported(f'MMA.response: {attr}: per-signal branch: save the values, allocate, loop')
+    sv, al, loop = ps.body
+    if not (isinstance(sv, ast.Assign) and isinstance(sv.targets[0], ast.Name) and ast.unparse(sv.value) == A):
+        raise Unsupported(f'MMA.response: {attr}: per-signal values are not saved first')
+    em.env[sv.targets[0].id] = AVal('b', 'Q')
+    if not (isinstance(al, ast.Assign) and ast.unparse(al.targets[0]) == A):
+        raise Unsupported(f'MMA.response: {attr}: per-signal allocation')
+    out.append(f'  Definition gen_{attr}_fill_init (zero : A) (xval : tarr A) : tarr A :=\n    {em.want(al.value, "T").text}.\n')
+    em.env[A] = AVal('acc', 'T')                 # from here on self.<attr> is the new array
+    _fill_loop(em, loop, attr, out)
+    # length test and conversion
+    out.append(f'  Definition gen_{attr}_len_bad (xval : tarr A) (b : tarr A) : bool :=\n    {_len_bad(base_env, _raise_test(lt, attr), attr)}.\n')
+    if lt.orelse:
+        raise Unsupported(f'MMA.response: {attr}: length test has an else branch')
+    if not (isinstance(cv, ast.Assign) and len(cv.targets) == 1 and ast.unparse(cv.targets[0]) == A):
+        raise Unsupported(f'MMA.response: {attr}: conversion statement')
+    em = RespEmitter(dict(base_env))
+    em.env[A] = AVal('b', 'Q')
+    out.append(f'  Definition gen_{attr}_final (b : tarr A) : tarr A :=\n    {em.want(cv.value, "T").text}.\n')
+    out.append(EXPAND_SKELETON.replace('@', attr))
+
+
+EXPAND_SKELETON = """  (* if not hasattr(b, '__len__'): <scalar>  elif <per signal>: <fill>;  if <bad length>: raise RuntimeError;  b = <final> *)
+  Definition gen_expand_@ (zero : A) (xval : tarr A) (nvars : nat) (cum : list nat) (s : tbspec A) : option (tarr A) :=
+    let b' := match s with
+              | TBScal sdt a => gen_@_scalar xval sdt a
+              | TBList sdt l => if gen_@_is_per_signal nvars (sdt, l)
+                                then fold_left (gen_@_fill_step cum (sdt, l)) (seq 0 (gen_@_fill_count (sdt, l))) (gen_@_fill_init zero xval)
+                                else (sdt, l)
+              end in
+    if gen_@_len_bad xval b' then None else Some (gen_@_final b').
+"""
+
+MOVE_SKELETON = """  (* if hasattr(move, '__len__'): if <per signal>: <fill>  elif <bad length>: raise RuntimeError  else: move = <final> *)
+  Definition gen_expand_move (zero : A) (xval : tarr A) (nvars : nat) (cum : list nat) (s : tbspec A) : option (tarr A) :=
+    match s with
+    | TBScal sdt a => Some (sdt, repeat a (length (snd xval)))         (* no __len__: left as it is (broadcast later) *)
+    | TBList sdt l =>
+        if gen_move_is_per_signal nvars (sdt, l)
+        then Some (fold_left (gen_move_fill_step cum (sdt, l)) (seq 0 (gen_move_fill_count (sdt, l))) (gen_move_fill_init zero xval))
+        else if gen_move_len_bad xval (sdt, l) then None else Some (gen_move_final (sdt, l))
+    end.
+"""
+
+
+def gen_move_block(st, base_env, out):
+    A = 'self.move'
+    if not (isinstance(st, ast.If) and ast.unparse(st.test) == f"hasattr({A}, '__len__')" and not st.orelse and len(st.body) == 2):
+        raise Unsupported('MMA.response: move: `if hasattr(self.move, "__len__"):` with two statements expected')
+    inp, br = st.body
+    em = RespEmitter(dict(base_env))
+    em.env[A] = AVal('b', 'Q')
+    if not (isinstance(inp, ast.Assign) and isinstance(inp.targets[0], ast.Name)):
+        raise Unsupported('MMA.response: move: move_input')
+    em.env[inp.targets[0].id] = em.want(inp.value, 'Q')
+    if not (isinstance(br, ast.If) and isinstance(br.test, ast.Compare) and isinstance(br.test.ops[0], ast.Eq) and len(br.orelse) == 1
+            and isinstance(br.orelse[0], ast.If)):
+        raise Unsupported('MMA.response: move: per-signal test')
+    out.append('  Definition gen_move_is_per_signal (nvars : nat) (b : tarr A) : bool :=\n'
+               f'    ({em.want(br.test.left, "N").text} =? {em.want(br.test.comparators[0], "N").text}).\n')
+    if len(br.body) != 2 or not (isinstance(br.body[0], ast.Assign) and ast.unparse(br.body[0].targets[0]) == A):
+        raise Unsupported('MMA.response: move: per-signal branch')
+    e2 = RespEmitter(dict(em.env))
+    out.append(f'  Definition gen_move_fill_init (zero : A) (xval : tarr A) : tarr A :=\n    {e2.want(br.body[0].value, "T").text}.\n')
+    e2.env[A] = AVal('acc', 'T')
+    _fill_loop(e2, br.body[1], 'move', out)
+    el = br.orelse[0]
+    if len(el.orelse) != 1:
+        raise Unsupported('MMA.response: move: `elif <length test>: raise ... else: <conversion>` expected')
+    out.append(f'  Definition gen_move_len_bad (xval : tarr A) (b : tarr A) : bool :=\n    {_len_bad(base_env, _raise_test(el, "move"), "move")}.\n')
+    cv = el.orelse[0]
+    if not (isinstance(cv, ast.Assign) and ast.unparse(cv.targets[0]) == A):
+        raise Unsupported('MMA.response: move: conversion statement')
+    out.append(f'  Definition gen_move_final (b : tarr A) : tarr A :=\n    {em.want(cv.value, "T").text}.\n')
+    out.append(MOVE_SKELETON)
+
+
+CONCAT_STATES = '_concatenate_to_array([s.state for s in self.variables])'
+
+
+def gen_response_vars(cls, out):
+    fn = find_func(cls, 'response')
+    body = [s for s in fn.body if not is_doc(s)]
+    whiles = [s for s in body if isinstance(s, ast.While)]
+    if len(whiles) != 1:
+        raise Unsupported('MMA.response: one while loop expected')
+    k = body.index(whiles[0])
+    pre = [s for s in body[:k] if not (isinstance(s, ast.Assign) and isinstance(s.targets[0], ast.Name) and isinstance(s.value, ast.Constant))]
+    if len(pre) != 9:
+        raise Unsupported(f'MMA.response: {len(pre)} statements before the iteration loop, expected 9 (concatenate, n, 3 for xmin, 3 for xmax, 1 for move)')
+    if ast.unparse(pre[0]) != ast.unparse(ast.parse(f'xval, self.cumlens = {CONCAT_STATES}')):
+        raise Unsupported('MMA.response: design vector: ' + ast.unparse(pre[0])[:120])
+    if ast.unparse(pre[1]) != 'self.n = len(xval)':
+        raise Unsupported('MMA.response: self.n: ' + ast.unparse(pre[1])[:80])
+    base = {'xval': AVal('xval', 'T'), 'self.cumlens': AVal('cum', 'L'), 'self.n': AVal('(length (snd xval))', 'N'),
+            'len(self.variables)': AVal('nvars', 'N')}
+    gen_bound_block(pre[2:5], 'xmin', base, out)
+    gen_bound_block(pre[5:8], 'xmax', base, out)
+    gen_move_block(pre[8], base, out)
+    # ---- inside the iteration loop: write-back, callback / response, read-back
+    wb = whiles[0].body
+    loops = [s for s in wb if isinstance(s, ast.For) and ast.unparse(s.iter) == 'enumerate(self.variables)']
+    if not loops:
+        raise Unsupported('MMA.response: the write-back loop was not found')
+    lp = loops[0]
+    if not (isinstance(lp.target, ast.Tuple) and len(lp.target.elts) == 2 and len(lp.body) == 1 and isinstance(lp.body[0], ast.If)):
+        raise Unsupported('MMA.response: write-back loop shape')
+    iname, sname = [e.id for e in lp.target.elts]
+    cond = lp.body[0]
+    a1, a2 = _single_assign(cond.body, 'write-back scalar'), _single_assign(cond.orelse, 'write-back array')
+    if ast.unparse(a1.targets[0]) != f'{sname}.state' or ast.unparse(a2.targets[0]) != f'{sname}.state':
+        raise Unsupported('MMA.response: write-back target')
+    em = RespEmitter({'xval': AVal('xval', 'V'), 'self.cumlens': AVal('cum', 'L'), iname: AVal('i', 'N')})
+    tst = em.want(cond.test, 'B')
+    v1, v2 = em.want(a1.value, 'A'), em.want(a2.value, 'V')
+    out.append('  (* for i, s in enumerate(self.variables): s.state = <item> *)\n'
+               '  Definition gen_writeback_item (xval : list A) (cum : list nat) (i : nat) : sval A :=\n'
+               f'    if {tst.text} then Scal {v1.text} else Arr {v2.text}.\n')
+    # only the reset may come before the write-back; the network response comes after it, then the read-back of the design
+    for s in wb[:wb.index(lp)]:
+        if ast.unparse(s) != 'self.funbl.reset()':
+            raise Unsupported('MMA.response: statement before the write-back: ' + ast.unparse(s)[:80])
+    rest = [ast.unparse(s) for s in wb[wb.index(lp) + 1:]]
+    rb = ast.unparse(ast.parse(f'xval, _ = {CONCAT_STATES}'))
+    if 'self.funbl.response()' not in rest or rb not in rest or rest.index(rb) < rest.index('self.funbl.response()'):
+        raise Unsupported('MMA.response: response / read-back of the design vector not found after the write-back')
+
+
+VARS_HEADER = """(* GENERATED by tools/gen_C10.py from pymoto/common/mma.py (MMA.response: variable handling) -- do not edit *)
+From Coq Require Import Arith List Bool.
+From Pymoto Require Import Model.MMAvars.
+Import ListNotations.
+
+Section Gen.
+  Context {A : Type}.
+  Variable d : A.
+  Variable conv : dtype -> dtype -> A -> A.
+"""
+
+
+def generate_vars(repo):
+    tree, _ = parse_file(os.path.join(repo, 'pymoto/common/mma.py'))
+    out = [VARS_HEADER]
+    gen_response_vars(find_class(tree, 'MMA'), out)
+    out.append('End Gen.\n')
+    return '\n'.join(out)
+
+
 HEADER = '''(* GENERATED by tools/gen_C10.py from pymoto/common/mma.py -- do not edit *)
 From Coq Require Import ZArith String List Bool.
 From Pymoto Require Import Base.Num Base.MMANum.
@@ -973,4 +1252,7 @@ def generate(repo):
 
 if __name__ == '__main__':
     import sys
-    print(generate(sys.argv[1] if len(sys.argv) > 1 else '/repo'))
+    if len(sys.argv) > 2 and sys.argv[2] == 'vars':
+        print(generate_vars(sys.argv[1]))
+    else:
+        print(generate(sys.argv[1] if len(sys.argv) > 1 else '/repo'))
